@@ -136,9 +136,10 @@ func (x *Exec) instr(fr *frame, ins ssa.Instruction, st *State, r string) (strin
 	case *ssa.Store:
 		p := x.val(fr, i.Addr)
 		r = x.guard(fr, ins, r, not(eq(p[0].T, "0")), "nil-deref")
+		memBefore := st.Mem
 		vc.store(st, p[0].T, p[1].T, x.val(fr, i.Val))
 		if x.trace != nil {
-			x.trace.stores = append(x.trace.stores, &StoreSite{Instr: i, Reach: r, Fn: fr.fn, Ref: p[0].T, Off: p[1].T})
+			x.trace.stores = append(x.trace.stores, &StoreSite{Instr: i, Reach: r, Fn: fr.fn, Ref: p[0].T, Off: p[1].T, MemBefore: memBefore})
 		}
 	case *ssa.UnOp:
 		r = x.unop(fr, i, st, r)
